@@ -450,5 +450,5 @@ MANIFEST = {
     "text": "exploration: no counterexample among every lt/gt operand (thorough), all boundary pairs for range, thousands of eq/neq/range expressions in names or numbers on both platforms, thousands of arbitrary port sets through the range-string codec, and op-list histories writing each view back into the same object",
     "note": "trusted: lib/refsem.py interval algebra and a ten-line decoder; port universe 1..65535; order of .ports not judged; neq write-back through .ports sampled thinly (quadratic in the library); empty sets (lt 1, gt 65535) must write back unchanged like any other expression",
 }
-MANIFEST["engine"] += " + atheris (coverage-guided twins of the Hypothesis sub-checks, fuzz/fuzz_hyp.py: 2 jobs x 8 s quick, 8 jobs x 200 s thorough)"
+MANIFEST["engine"] = MANIFEST.get("engine", "hypothesis") + " + atheris (coverage-guided twins of the Hypothesis sub-checks, fuzz/fuzz_hyp.py: 2 jobs x 8 s quick, 8 jobs x 200 s thorough)"
 MANIFEST["technique"] += "; plus coverage-guided fuzzing of the same strategies (atheris/libFuzzer mutates the byte stream Hypothesis decodes into cases, the same oracle runs inside the target, findings are re-judged outside it)"
